@@ -472,6 +472,12 @@ impl<T: HCfg> World<T> {
                 if p >= self.peers.len() || !self.peers[p].alive || self.peers[p].crashed {
                     line.insert("r".into(), json!("skip"));
                 } else {
+                    if let Some(e) = s.get("expect") {
+                        line.insert("expect".into(), e.clone());
+                    }
+                    if let Some(e) = s.get("expect_add") {
+                        line.insert("expect_add".into(), e.clone());
+                    }
                     self.peer_step(&act, p, s, &mut line);
                     if act == "ev" {
                         // DesyncDetected: attach the checksums both games really saved for that frame
